@@ -38,7 +38,7 @@ Section Top.
     unfold center_image, Center.center_image. cbn [fst snd].
     set (IM1 := ci_trim odd_size square IM) in *.
     rewrite set_center_whole_pixel
-      by (right; split; cbn [is_integral]; eexists; reflexivity).
+      by (right; split; [destruct ax0|destruct ax1]; cbn [is_integral]; try exact I; eexists; reflexivity).
     rewrite (wf_nrows W), (wf_ncols W Hn').
     destruct (@set_center_int_spec A zero MaintainSize n' m' IM1
                 (sel_origin ax0 n' order (Some (inject_Z (Z.of_nat (n' / 2)))))
@@ -64,27 +64,17 @@ Section Top.
     - exists out, (fst (ci_shape true square n m)), (snd (ci_shape true square n m)). auto.
   Qed.
 
-  Theorem center_image_square n m (IM : img) ax0 ax1 order :
+  Theorem center_image_square odd_size n m (IM : img) ax0 ax1 order :
     wf n m IM -> 0 < n -> 0 < m ->
     exists out n',
-      center_image IM None true true ax0 ax1 MaintainSize order = Ok out /\
-      wf n' n' out /\ 0 < n' /\ n' mod 2 = 1.
+      center_image IM None odd_size true ax0 ax1 MaintainSize order = Ok out /\
+      wf n' n' out /\ 0 < n' /\ (odd_size = true -> n' mod 2 = 1).
   Proof.
-    intros Hwf Hn Hm. destruct (ci_shape_square_odd Hn Hm) as [He Hp].
-    destruct (ci_shape_odd true Hn Hm) as [Ho _].
-    destruct (@center_image_ms_shape true true n m IM ax0 ax1 order) as [out [E W]]; try assumption.
+    intros Hwf Hn Hm. destruct (ci_shape_square odd_size Hn Hm) as [He Hp].
+    destruct (@center_image_ms_shape odd_size true n m IM ax0 ax1 order) as [out [E W]]; try assumption.
     - rewrite <- He. exact Hp.
-    - exists out, (fst (ci_shape true true n m)). rewrite <- He in W, Ho. auto.
-  Qed.
-
-  Theorem center_image_square_partial n m (IM : img) ax0 ax1 order :
-    wf n m IM -> 0 < n -> 0 < m -> (m <= n \/ (m - n) mod 2 = 0) ->
-    exists out n',
-      center_image IM None false true ax0 ax1 MaintainSize order = Ok out /\ wf n' n' out /\ 0 < n'.
-  Proof.
-    intros Hwf Hn Hm H. destruct (ci_shape_square_partial Hn Hm H) as [He Hp].
-    destruct (@center_image_ms_shape false true n m IM ax0 ax1 order) as [out [E W]]; try assumption.
-    - rewrite <- He. exact Hp.
-    - exists out, (fst (ci_shape false true n m)). rewrite <- He in W. auto.
+    - exists out, (fst (ci_shape odd_size true n m)). rewrite <- He in W.
+      split; [exact E|]. split; [exact W|]. split; [exact Hp|].
+      intros ->. rewrite He. apply (ci_shape_odd true Hn Hm).
   Qed.
 End Top.
